@@ -48,4 +48,24 @@ CHECKS = {
   note="Trusted: TLC, the harness's snapshots (public API for Map/Set, element-wise reads up to cap for slices). Option/Try/tuples "
        "are value types without reachable mutable storage and are covered only as elements.",
   technique="TLC trace validation of branching histories against version-store specifications (every live version re-observed after every step)"),
+ "C12": dict(
+  text="SeqSpec.tla is the eager reference (its laws are model-checked); Stream.tla - the look-ahead machines of iterator.go - is "
+       "model-checked against it for all sources <= 4, all one- and two-stage pipelines and all call patterns, including the demand "
+       "bound (the prefetching Filter is rejected). Seeded pipelines of 1-6 combinators over instrumented finite sources and "
+       "unbounded generators (with a pull budget) run on the real library under varied demand patterns; TLC (TraceIter) accepts a "
+       "log only if every answer is the eager output, the pull counter stays within max(pulled0, Need(demand)) + 2 per stage, and "
+       "a budget overrun could not have been avoided. Iterator/list/seq implementations of the same operation are compared "
+       "through SeqStore (shared with C04).",
+  note="Demand is an upper bound (lenient reading): Need(c) is the whole source when no c-th output exists; stages that buffer "
+       "by design (lazy List, iter.Pull) get their look-ahead in output elements. Element type int; memoised list cells are "
+       "covered by C16's run-once check.",
+  technique="TLC model checking of iterator state machines against an eager reference; TLC trace validation of real pipelines incl. pull counts"),
+ "C20": dict(
+  text="Dup.tla (Duplicate as written: queue + leftAhead) is model-checked for every interleaving of HasNext/Next on both "
+       "sides; Stream.tla for every call pattern on single iterators. Every iterator-producing function of the library "
+       "(17 ordered constructors, 11 hash-collection iterators, the zero value, every combinator) and both sides of "
+       "Duplicate/Span/Partition are driven with call patterns including repeated HasNext, consecutive Next and Next on an "
+       "exhausted iterator; TLC (TraceIter) accepts the log only if every answer is the one the abstract iterator of IterSpec gives.",
+  note="Trusted: TLC and the harness's call logging; hash-collection iterators are compared as multisets; element type int.",
+  technique="TLC model checking of Duplicate and look-ahead machines; TLC trace validation of call patterns on every real iterator producer"),
 }
